@@ -33,9 +33,9 @@ func init() {
 				Min:  map[string]int64{"accepted": 4000, "black_substituted": 500}},
 			{Name: "sections", N: func(t string) uint64 {
 				if t == "thorough" {
-					return 15_000_000
+					return 120_000_000
 				}
-				return 400_000
+				return 2_000_000
 			}, Run: c13Sections,
 				Rule: "generated metadata sections as described in the property's quantifier",
 				Min: map[string]int64{"accepted": 20000, "rejected": 20000, "viewbox_chunk": 10000, "palette_chunk": 10000, "degenerate_viewbox_accepted": 50,
